@@ -1024,7 +1024,8 @@ def sc_corrupt(case, res):
             h = len(d) // 2
             wire += client_frame(opcode, d[:h], fin=False, rsv1=True) + client_frame(0, d[h:], fin=True, rsv1=True)
         elif how == "rsv1-on-control":
-            wire += client_frame(rng.choice([8, 9, 10]), b"\x03\xe8" + d[:20], rsv1=True)
+            ctl = p.get("ctl") or rng.choice([8, 9, 10])
+            wire += client_frame(ctl, b"\x03\xe8" + d[:20], rsv1=True)
         elif how == "unfinished-then-new":
             wire += client_frame(opcode, d[:len(d) // 2], fin=False, rsv1=True) + client_frame(opcode, d, fin=True, rsv1=True)
         elif how == "continuation-without-start":
@@ -1055,6 +1056,21 @@ def sc_corrupt(case, res):
         evs = c.feed(wire, p.get("chunk", 0))
         res.stats["corrupt_inputs"] += 1
         msgs, partial, closed, pongs = collect_delivery(evs)
+        if how == "rsv1-on-control" and not p.get("prefix_valid"):
+            # RFC 7692 section 6: RSV1 on a control frame is a protocol error, never an ordinary close / ping / pong
+            for e in evs:
+                if e["ev"] != "w":
+                    continue
+                fr, _prob = parse_server_frame(bytes.fromhex(e["hex"]))
+                if fr is None:
+                    continue
+                if fr["opcode"] == 10:
+                    res.viol.append(("deflate/control-frame-with-rsv1-answered-with-pong", "opcode %d" % ctl))
+                if fr["opcode"] == 8 and len(fr["payload"]) >= 2 and struct.unpack(">H", fr["payload"][:2])[0] != 1002:
+                    res.viol.append(("deflate/control-frame-with-rsv1-not-refused-as-protocol-error",
+                                     "opcode %d answered with close status %d" % (ctl, struct.unpack(">H", fr["payload"][:2])[0])))
+            if not closed:
+                res.viol.append(("deflate/control-frame-with-rsv1-accepted", "opcode %d: connection still open" % ctl))
         if eof and not closed:
             evs2 = c.w.cmd("eof")
             closed = any(e["ev"] in ("ws_error", "br_close") for e in evs2)
@@ -1332,6 +1348,8 @@ def gen_cases(tier, seed):
                 variants = [dict(prefix_valid=False, small=1, large=10000), dict(prefix_valid=False, small=1, large=30)]
             if how in ("bomb", "bomb-fragmented"):
                 variants = [dict(prefix_valid=False, bomb=61440, frag="1+rest")]
+            if how == "rsv1-on-control":
+                variants = [dict(prefix_valid=False, ctl=8), dict(prefix_valid=False, ctl=9), dict(prefix_valid=False, ctl=10)]
             for i, v in enumerate(variants):
                 v.setdefault("frag", "halves")
                 add("corrupt", fixed=("corrupt-witness", level, how, i), level=level, kind="b", offer={}, how=how,
